@@ -7,6 +7,7 @@ package main
 import (
 	"fmt"
 	"go/token"
+	"sort"
 	"strings"
 
 	"golang.org/x/tools/go/ssa"
@@ -332,7 +333,16 @@ func ruleC17R3(c *Ctx) {
 	for _, f := range c.P.universe {
 		for _, st := range storesToField(f, fLoader) {
 			n++
-			ok := anchorName(f) == aNewReloader || (f.Parent() != nil && anchorName(f.Parent()) == aInitReload) || (f.Parent() == nil && ownedBy(f, aInitReload))
+			ok := anchorName(f) == aNewReloader || (f.Parent() != nil && anchorName(f.Parent()) == aInitReload)
+			if !ok && f.Parent() == nil && anchorName(f) != aInitReload {
+				// a private helper of the completion closure (never of initiateDownstreamReload's own body, which runs
+				// before the caller has decided to complete the reload)
+				for _, cl := range fn.AnonFuncs {
+					if c.helpersOf(cl)[f] {
+						ok = true
+					}
+				}
+			}
 			c.check(ok, "C17.R3", f, "store to Reloader.Loader", st.Pos(), "the loader is swapped only by the completion closure (and set by the constructor)", "the active loader is replaced outside the reload completion closure")
 		}
 	}
@@ -735,5 +745,162 @@ func ruleC17R8(c *Ctx) {
 	c.count("C17.R8:changes of the wrapper before the configuration is known to be good", nPre)
 	if nPre == 0 {
 		c.ok("C17.R8", fn, "nothing of the wrapper is changed before initiateReload has succeeded", init[0].Pos(), fmt.Sprintf("%d field mutation(s) in reload's region, none can reach the failure test", len(muts)))
+	}
+}
+
+// ---- C17.R9 (found by reading, after a note of the agent that wrote seed c17g): what survives a reload was built from
+// configuration that the compatibility check compares. The completion closure carries objects of the old loader over to
+// the new one (the record allocator shared with the inputs, the input metric factory). Such an object was constructed from
+// the OLD configuration file; the new pipelines are built from the NEW one. Every section of run.Config that an argument
+// of the carried-over object's constructor derives from must therefore be read from both configurations in
+// checkConfigCompatibility — otherwise a valid new file can disagree with the surviving object (a record allocator that
+// counts one reference per OLD output while the new pipelines release once per NEW output).
+func init() {
+	register("C17", "C17.R9", ruleC17R9)
+}
+
+func ruleC17R9(c *Ctx) {
+	ir := c.P.Fn(aInitReload)
+	const cfgT = "run.Config"
+	cfgFieldsOf := func(v ssa.Value, out map[string]bool) {
+		mentions(v, func(x ssa.Value) bool {
+			switch y := x.(type) {
+			case *ssa.FieldAddr:
+				if typeName(y.X.Type()) == cfgT {
+					out[fieldName(y.X.Type(), y.Field)] = true
+				}
+			case *ssa.Field:
+				if typeName(y.X.Type()) == cfgT {
+					out[fieldName(y.X.Type(), y.Field)] = true
+				}
+			}
+			// a schema value stands for the schema section it was built from
+			if typeName(x.Type()) == "base.LogSchema" {
+				out[cfgT+".Schema"] = true
+			}
+			return false
+		})
+	}
+	// carried-over fields: stores in the completion closure(s) whose value is a load of the same field of another object
+	carried := map[string]token.Pos{}
+	for _, g := range c.regionOf(ir) {
+		for _, f := range withAnons(g) {
+			eachInstr(f, func(in ssa.Instruction) {
+				st, ok := in.(*ssa.Store)
+				if !ok {
+					return
+				}
+				dst, ok := strip(st.Addr).(*ssa.FieldAddr)
+				if !ok {
+					return
+				}
+				ld, ok := strip(st.Val).(*ssa.UnOp)
+				if !ok || ld.Op != token.MUL {
+					return
+				}
+				src, ok := strip(ld.X).(*ssa.FieldAddr)
+				if !ok {
+					return
+				}
+				dn, sn := fieldName(dst.X.Type(), dst.Field), fieldName(src.X.Type(), src.Field)
+				if dn == sn && resolve(dst.X) != resolve(src.X) {
+					carried[dn] = st.Pos()
+				}
+			})
+		}
+	}
+	c.floor("C17.R9", "objects carried over from the old loader by the completion closure", len(carried), 1)
+	// what the compatibility check reads from both configurations
+	cc := c.P.Fn(aCheckCompat)
+	perParam := map[*ssa.Parameter]map[string]bool{}
+	for _, g := range c.regionOf(cc) {
+		eachInstr(g, func(in ssa.Instruction) {
+			var x ssa.Value
+			var name string
+			switch y := in.(type) {
+			case *ssa.FieldAddr:
+				x, name = y.X, fieldName(y.X.Type(), y.Field)
+			case *ssa.Field:
+				x, name = y.X, fieldName(y.X.Type(), y.Field)
+			default:
+				return
+			}
+			if typeName(x.Type()) != cfgT {
+				return
+			}
+			if p, ok := c.resolveR(cc, x).(*ssa.Parameter); ok {
+				if perParam[p] == nil {
+					perParam[p] = map[string]bool{}
+				}
+				perParam[p][name] = true
+			} else if al, ok := resolve(x).(*ssa.Alloc); ok { // a by-value parameter is spilled into a local
+				if sv, ok := singleStore(al); ok {
+					if p, ok := c.resolveR(cc, sv).(*ssa.Parameter); ok {
+						if perParam[p] == nil {
+							perParam[p] = map[string]bool{}
+						}
+						perParam[p][name] = true
+					}
+				}
+			}
+		})
+	}
+	compared := map[string]bool{}
+	if len(perParam) >= 2 {
+		first := true
+		for _, m := range perParam {
+			if first {
+				for k := range m {
+					compared[k] = true
+				}
+				first = false
+				continue
+			}
+			for k := range compared {
+				if !m[k] {
+					delete(compared, k)
+				}
+			}
+		}
+	}
+	c.floor("C17.R9", "configuration sections read from both files by checkConfigCompatibility", len(compared), 2)
+	var names []string
+	for n := range carried {
+		names = append(names, n)
+	}
+	sort.Strings(names)
+	for _, n := range names {
+		// constructions of the carried-over field anywhere in the loader's package
+		derived := map[string]bool{}
+		nCons := 0
+		for _, f := range c.P.universe {
+			if fnPkgPath(f) != fnPkgPath(ir) {
+				continue
+			}
+			for _, st := range storesToField(f, n) {
+				if ld, ok := strip(st.Val).(*ssa.UnOp); ok && ld.Op == token.MUL {
+					if src, ok := strip(ld.X).(*ssa.FieldAddr); ok && fieldName(src.X.Type(), src.Field) == n {
+						continue // the carry-over itself
+					}
+				}
+				nCons++
+				cfgFieldsOf(st.Val, derived)
+			}
+		}
+		var missing []string
+		for d := range derived {
+			if !compared[d] {
+				missing = append(missing, d)
+			}
+		}
+		sort.Strings(missing)
+		var dl []string
+		for d := range derived {
+			dl = append(dl, d)
+		}
+		sort.Strings(dl)
+		c.check(len(missing) == 0, "C17.R9", ir, "the configuration "+n+" was built from is compared before it is carried over to the new loader", carried[n],
+			fmt.Sprintf("%d construction site(s), built from {%s}: every one of these sections is read from the old and the new configuration by checkConfigCompatibility", nCons, strings.Join(dl, ", ")),
+			fmt.Sprintf("the object is built from {%s} of the old configuration and survives the reload, but checkConfigCompatibility never compares {%s}: a valid new file that differs there is accepted although the surviving object disagrees with the new pipelines", strings.Join(dl, ", "), strings.Join(missing, ", ")))
 	}
 }
